@@ -209,6 +209,15 @@ def zero_duration(n):
 def r4(ctx, facts, cfg):
     f = facts.need(BW + "_flush_and_run_active_sinks", cfg)[0]
     g = f.g
+    # R4e: one sink's failing flush does not skip the flush of the sinks after it (the flag is raised right after this function:
+    # "returns only after ... flushed" must hold for every sink that can be flushed)
+    from rules.common import try_stack, has_catch_all
+    for c in f.calls(r"::Sink::flush_sink$"):
+        ts = [t for t in try_stack(f, c) if has_catch_all(t)]
+        loops = [a for a in f.ancestors(c) if a["k"] == "CXXForRangeStmt"]
+        ctx.ob("C06.R4e", "_flush_and_run_active_sinks:every-sink-attempted", bool(ts) and bool(loops) and in_subtree(ts[0], loops[0]),
+               "a flush_sink that throws is caught inside the loop over the sinks, so the remaining sinks are still flushed before the "
+               "caller is released", loc=c["loc"], fn=f)
     ip = f.rec["params"][1]["did"]
     decls = f.var_decls()
     flush_calls = need_some(f.calls(r"::Sink::flush_sink$"), "flush_sink call")
